@@ -59,6 +59,8 @@ MIN_COUNTERS = {"quick": {"seq_histories": 1500, "seq_steps": 5000, "crash_point
                 "thorough": {"seq_histories": 12000, "seq_steps": 45000, "crash_points": 40, "crash_followups": 40, "schedules": 210, "schedule_steps_observed": 750,
                              "scan_runs": 30, "scan_requests": 900, "wrongserver_pairs": 400}}
 
+# FI identities, incl. free-text ORG/FID as found in the bundled FI database ("Cavion/Phoenix") and worse
+IDENTS = [("ORG1", "F1"), ("Cavion/Phoenix", "125108887"), ("ORG1", "F1"), ("A B&C", "x:y*?"), (None, None), ("..", "../up"), ("ORG1", None), ("Ünï©ode", "汉")]
 BEHAVIOURS = ["newer", "same", "older", "uptodate", "error", "garbage", "transport"]
 URL = "https://ofx.fi-one.example/profile"
 BASE_DT = 20100101
@@ -138,14 +140,15 @@ def run_history(ctx, net, seq, fresh, variant):
         return Reply(exc=transport_error())
 
     net.handler = handler
-    client = OFXClient(URL, org="ORG1", fid="F1")
-    pair = [client, OFXClient(URL, org="ORG1", fid="F1")]  # two long-lived clients of the same FI taking turns
-    case = {"monitor": "seq", "seq": seq, "fresh": fresh, "variant": variant}
+    org, fid = IDENTS[(variant + len(seq)) % len(IDENTS)]
+    client = OFXClient(URL, org=org, fid=fid)
+    pair = [client, OFXClient(URL, org=org, fid=fid)]  # two long-lived clients of the same FI taking turns
+    case = {"monitor": "seq", "seq": seq, "fresh": fresh, "variant": variant, "org": org, "fid": fid}
     for i, b in enumerate(seq):
         if fresh == "alternate":
             client = pair[i % 2]
         elif fresh:
-            client = OFXClient(URL, org="ORG1", fid="F1")
+            client = OFXClient(URL, org=org, fid=fid)
         step_rec.clear()
         step_rec["behaviour"] = b
         before = cache_files()
@@ -569,11 +572,11 @@ def wrongserver_monitor(ctx, net):
 
     urls = ["https://ofx.fi-one.example/profile", "https://ofx.fi-one.example/other/path", "https://ofx.fi-one.example:8443/profile",
             "https://ofx.fi-two.example/profile", "http://ofx.fi-one.example/profile", "https://OFX.fi-one.example/profile?x=1"]
-    idents = [("ORG1", "F1"), ("ORG1", "F2"), ("ORG2", "F1"), ("ORG1", None), (None, None), (None, "F1")]
+    idents = [("ORG1", "F1"), ("ORG1", "F2"), ("ORG2", "F1"), ("ORG1", None), (None, None), (None, "F1"), ("Cavion/Phoenix", "1"), ("Cavion", "Phoenix-1"), ("a-b", "c"), ("a", "b-c")]
     combos = [(ua, ia, ub, ib) for ua in urls[:3] for ia in idents for ub in urls for ib in idents]
     rng = random.Random(f"C15w/{ctx.seed}")
     rng.shuffle(combos)
-    n = 100 if ctx.tier == "quick" else 648
+    n = 160 if ctx.tier == "quick" else 1200
     for i, (ua, ia, ub, ib) in enumerate(combos[:n]):
         if i % ctx.nshards != ctx.shard:
             continue
